@@ -78,12 +78,14 @@ type PairCfg struct {
 	RcvBuf int    `json:"rcvbuf"`
 	// ISS placement: 0 random; otherwise the active opener's ISS is set to
 	// ActiveISS and (if PlacePassive) the passive side's to PassiveISS.
-	PlaceActive  bool    `json:"place_active"`
-	ActiveISS    uint32  `json:"active_iss"`
-	PlacePassive bool    `json:"place_passive"`
-	PassiveISS   uint32  `json:"passive_iss"`
-	Chunk        int     `json:"chunk"` // 0: single view; k>0: split delivered packets into k-byte views
-	Prog         Program `json:"prog"`
+	PlaceActive  bool   `json:"place_active"`
+	ActiveISS    uint32 `json:"active_iss"`
+	PlacePassive bool   `json:"place_passive"`
+	PassiveISS   uint32 `json:"passive_iss"`
+	Chunk        int    `json:"chunk"` // 0: single view; k>0: split delivered packets into k-byte views
+	// Pad: 0 none; 46: the link pads short frames to the Ethernet minimum; other k>0: k trailing bytes on every packet
+	Pad  int     `json:"pad,omitempty"`
+	Prog Program `json:"prog"`
 }
 
 // Pair is two stacks, A (active opener) and B (listener).
@@ -111,6 +113,13 @@ func NewPair(cfg PairCfg) *Pair {
 		mtu = 1500
 	}
 	p.TA, p.TB = NewTap(mtu), NewTap(mtu)
+	for _, t := range []*Tap{p.TA, p.TB} {
+		if cfg.Pad == 46 {
+			t.PadMin = 46
+		} else if cfg.Pad > 0 {
+			t.PadIn = cfg.Pad
+		}
+	}
 	sack := cfg.SACK
 	sc := StackCfg{Addrs4: nil, SACK: &sack, CC: cfg.CC, RcvBuf: cfg.RcvBuf, SndBuf: cfg.SndBuf}
 	ca, cb := sc, sc
